@@ -17,28 +17,36 @@ Lists1(H(_)) == {<<>>} \cup {<<h>> : h \in H(1)}
 NoHooks == {<<>>}
 
 (* C40, quick: every registration set x every offer; every filter verdict function on three dial patterns *)
-FamDispatch == [reg : SUBSET Alpns, offers : OfferSeqs, self : {FALSE}, closed : {FALSE}, filt : {NoFilter}, ch : NoHooks, sh : NoHooks]
-FamFilter == [reg : {{"p"}, {"p", "q"}}, offers : {<<"p">>, <<"r">>, <<"q", "p">>}, self : {FALSE}, closed : {FALSE}, filt : AllFilters,
+FamDispatch == [reg : SUBSET Alpns, offers : OfferSeqs, self : {FALSE}, closed : {FALSE}, cpath : {"await"}, spath : {"router"}, filt : {NoFilter}, ch : NoHooks, sh : NoHooks]
+FamFilter == [reg : {{"p"}, {"p", "q"}}, offers : {<<"p">>, <<"r">>, <<"q", "p">>}, self : {FALSE}, closed : {FALSE}, cpath : {"await"}, spath : {"router"}, filt : AllFilters,
               ch : NoHooks, sh : NoHooks]
 
 (* C42, quick: every hook list pair; every precondition failure x dialer hook list; hooks behind a retry *)
-FamHooks == [reg : {{"p"}}, offers : {<<"p">>}, self : {FALSE}, closed : {FALSE}, filt : {NoFilter}, ch : Lists(CHook), sh : Lists(SHookAfter)]
-FamPre == ([reg : {{"p"}}, offers : {<<"p">>, <<"">>, <<"", "p">>}, self : BOOLEAN, closed : {FALSE}, filt : {NoFilter}, ch : Lists(CHook), sh : NoHooks]
-            \ [reg : {{"p"}}, offers : {<<"p">>}, self : {FALSE}, closed : {FALSE}, filt : {NoFilter}, ch : Lists(CHook), sh : NoHooks])
-FamHooksRetry == [reg : {{"p", "q"}}, offers : {<<"q">>}, self : {FALSE}, closed : {FALSE},
+FamHooks == [reg : {{"p"}}, offers : {<<"p">>}, self : {FALSE}, closed : {FALSE}, cpath : {"await"}, spath : {"router"}, filt : {NoFilter}, ch : Lists(CHook), sh : Lists(SHookAfter)]
+FamPre == ([reg : {{"p"}}, offers : {<<"p">>, <<"">>, <<"", "p">>}, self : BOOLEAN, closed : {FALSE}, cpath : {"await"}, spath : {"router"}, filt : {NoFilter}, ch : Lists(CHook), sh : NoHooks]
+            \ [reg : {{"p"}}, offers : {<<"p">>}, self : {FALSE}, closed : {FALSE}, cpath : {"await"}, spath : {"router"}, filt : {NoFilter}, ch : Lists(CHook), sh : NoHooks])
+FamHooksRetry == [reg : {{"p", "q"}}, offers : {<<"q">>}, self : {FALSE}, closed : {FALSE}, cpath : {"await"}, spath : {"router"},
                   filt : {[on |-> TRUE, v1 |-> "Retry", v2 |-> "Accept"], [on |-> TRUE, v1 |-> "Reject", v2 |-> "Accept"]},
                   ch : Lists1(CHook), sh : Lists1(SHook)]
-FamClosed == [reg : {{"p"}}, offers : {<<"p">>, <<"">>}, self : BOOLEAN, closed : {TRUE}, filt : {NoFilter}, ch : Lists1(CHook), sh : NoHooks]
-FamC42Quick == ((FamHooks \cup FamPre) \cup FamHooksRetry) \cup FamClosed
-FamClosed0 == [reg : {{"p"}}, offers : {<<"p">>}, self : {FALSE}, closed : {TRUE}, filt : {NoFilter}, ch : NoHooks, sh : NoHooks]
+FamClosed == [reg : {{"p"}}, offers : {<<"p">>, <<"">>}, self : BOOLEAN, closed : {TRUE}, cpath : {"await"}, spath : {"router"}, filt : {NoFilter}, ch : Lists1(CHook), sh : NoHooks]
+(* establishment paths: both 0-RTT sides and the plain accept loop x {no hook, accept, reject(code)} on either side *)
+CPaths == {"await", "zrtt"}
+SPaths == {"router", "await", "zrtt"}
+FamPaths == [reg : {{"p"}}, offers : {<<"p">>}, self : {FALSE}, closed : {FALSE}, cpath : CPaths, spath : SPaths,
+             filt : {NoFilter}, ch : Lists1(CHook), sh : Lists1(SHookAfter)]
+FamPathsThorough == [reg : {{"p"}, {"p", "q"}}, offers : {<<"p">>, <<"q", "p">>, <<"r">>}, self : {FALSE}, closed : {FALSE},
+                     cpath : CPaths, spath : SPaths, filt : {NoFilter}, ch : Lists(CHook), sh : Lists(SHookAfter)]
+FamC42Quick == (((FamHooks \cup FamPre) \cup FamHooksRetry) \cup FamClosed) \cup FamPaths
+FamClosed0 == [reg : {{"p"}}, offers : {<<"p">>}, self : {FALSE}, closed : {TRUE}, cpath : {"await"}, spath : {"router"}, filt : {NoFilter}, ch : NoHooks, sh : NoHooks]
 FamC40Quick == ((FamDispatch \cup FamFilter) \cup FamHooksRetry) \cup FamClosed0
 
 (* the full product (model checking of the invariants; the e2e runs take a seeded sample of it through FamJson) *)
-FamFull == [reg : SUBSET Alpns, offers : OfferSeqs, self : BOOLEAN, closed : BOOLEAN, filt : AllFilters, ch : Lists(CHook), sh : Lists(SHookAfter)]
-FamSmall == [reg : SUBSET Alpns, offers : OfferSeqs, self : BOOLEAN, closed : BOOLEAN, filt : AllFilters, ch : Lists1(CHook), sh : Lists1(SHook)]
+FamFull == [reg : SUBSET Alpns, offers : OfferSeqs, self : BOOLEAN, closed : BOOLEAN, cpath : {"await"}, spath : {"router"}, filt : AllFilters, ch : Lists(CHook), sh : Lists(SHookAfter)]
+FamSmall == [reg : SUBSET Alpns, offers : OfferSeqs, self : BOOLEAN, closed : BOOLEAN, cpath : {"await"}, spath : {"router"}, filt : AllFilters, ch : Lists1(CHook), sh : Lists1(SHook)]
 
 (* scenarios chosen by the check (seeded sample of FamFull, or a replay), one JSON object per line *)
 JsonScn == ndJsonDeserialize(IOEnv.SCN)
-FamJson == {[reg |-> Range(JsonScn[k].reg), offers |-> JsonScn[k].offers, self |-> JsonScn[k].self, closed |-> JsonScn[k].closed, filt |-> JsonScn[k].filt,
+FamJson == {[reg |-> Range(JsonScn[k].reg), offers |-> JsonScn[k].offers, self |-> JsonScn[k].self, closed |-> JsonScn[k].closed,
+             cpath |-> JsonScn[k].cpath, spath |-> JsonScn[k].spath, filt |-> JsonScn[k].filt,
              ch |-> JsonScn[k].ch, sh |-> JsonScn[k].sh] : k \in DOMAIN JsonScn}
 =============================================================================
